@@ -121,12 +121,15 @@ class GdbMode(_Base):
             specs = histgen.history(d, nconn=d.int(1, 2), nmsg=d.int(5, 36), tagged=True, profile=prof)
         else:
             specs = histgen.history_with_destroys(d, prof)
-        return dict(dialect='gdb-shaped', specs=specs, vprefix=d.choice(['', '', '3']))
+        # closures dispatched from several threads (on a server's or an unclassified connection the plugin warns about them, naming
+        # the message before it is resolved - nothing about the message itself may change)
+        threads = [d.choice([1, 1, 2, 3]) for _ in range(d.int(1, 6))] if d.chance(0.5) else None
+        return dict(dialect='gdb-shaped', specs=specs, vprefix=d.choice(['', '', '3']), threads=threads)
 
     def execute(self, case):
         res = Result()
         res.evals = 0
-        tr = tracker.GdbTracker(case.get('vprefix', ''))
+        tr = tracker.GdbTracker(case.get('vprefix', ''), case.get('threads'))
         try:
             for spec in case['specs']:
                 if spec.get('destroy'):
@@ -142,6 +145,7 @@ class GdbMode(_Base):
         finally:
             tr.close()
         self.finish(case, res)
+        if any(t != 1 for t in case.get('threads') or []): res.label('several-threads')
         return res
 
 
